@@ -21,6 +21,61 @@ import (
 
 var schedPkgs = []string{"core/statecache", "core/util", "core/logging"}
 
+// touch describes one Touch point: before the first statement of method recv.fn whose source
+// contains `before`, insert stmt ($R = receiver name). Touch marks an access to shared memory
+// that is not (or not consistently) protected by a lock, so that the explorer can decide the
+// data-race clauses for these fields. Anchors that no longer exist are skipped with a note.
+type touch struct {
+	pkg, file, recv, fn, before, stmt string
+}
+
+var touches = []touch{
+	{"core/util", "merkle_patricia_trie.go", "MerklePatriciaTrie", "addMissingNodeKeys", "= append(", `sync.Touch(&$R.missingNodeKeys, true, "MerklePatriciaTrie.missingNodeKeys")`},
+	{"core/util", "merkle_patricia_trie.go", "MerklePatriciaTrie", "GetMissingNodeKeys", "make([]Key", `sync.Touch(&$R.missingNodeKeys, false, "MerklePatriciaTrie.missingNodeKeys")`},
+	{"core/logging", "inmemory_logger.go", "MemCore", "Write", "entry", `sync.Touch($R.mu, true, "MemCore ring buffer")`},
+	{"core/logging", "inmemory_logger.go", "MemLogger", "GetLogs", ".r.Do(", `sync.Touch($R.core.mu, false, "MemCore ring buffer")`},
+}
+
+func applyTouches(fset *token.FileSet, f *ast.File, pkg, file string) {
+	for _, t := range touches {
+		if t.pkg != pkg || t.file != file {
+			continue
+		}
+		done := false
+		for _, d := range f.Decls {
+			fd, ok := d.(*ast.FuncDecl)
+			if !ok || fd.Name.Name != t.fn || fd.Recv == nil || len(fd.Recv.List) == 0 || fd.Body == nil {
+				continue
+			}
+			var rb bytes.Buffer
+			_ = format.Node(&rb, fset, fd.Recv.List[0].Type)
+			if strings.TrimPrefix(rb.String(), "*") != t.recv || len(fd.Recv.List[0].Names) == 0 {
+				continue
+			}
+			rname := fd.Recv.List[0].Names[0].Name
+			for i, st := range fd.Body.List {
+				var sb bytes.Buffer
+				_ = format.Node(&sb, fset, st)
+				if !strings.Contains(sb.String(), t.before) {
+					continue
+				}
+				ex, err := parser.ParseExpr(strings.ReplaceAll(t.stmt, "$R", rname))
+				if err != nil {
+					fatal(err)
+				}
+				list := append([]ast.Stmt{}, fd.Body.List[:i]...)
+				list = append(list, &ast.ExprStmt{X: ex})
+				fd.Body.List = append(list, fd.Body.List[i:]...)
+				done = true
+				break
+			}
+		}
+		if !done {
+			fmt.Fprintf(os.Stderr, "mkoverlay: note: Touch anchor %s.%s (%q) not found in %s/%s, skipped\n", t.recv, t.fn, t.before, pkg, file)
+		}
+	}
+}
+
 func main() {
 	mode, out := os.Args[1], os.Args[2]
 	repo := "/repo"
@@ -64,6 +119,7 @@ func main() {
 				if !changed {
 					continue
 				}
+				applyTouches(fset, f, p, n)
 				var buf bytes.Buffer
 				if err := format.Node(&buf, fset, f); err != nil {
 					fatal(err)
